@@ -68,6 +68,8 @@ type atKey struct {
 
 // Engine is the analysis state.
 type Engine struct {
+	storedMemo      map[fieldKey]bool
+	bitLenMemo      map[*ssa.Function]bitLenInfo
 	cfg             Config
 	fs              map[*ssa.Function]*fstate
 	order           []*ssa.Function
@@ -680,6 +682,9 @@ func (e *Engine) iterate(s *fstate) {
 						nv = Join(old, nv)
 					}
 				}
+				if phi, isPhi := v.(*ssa.Phi); isPhi {
+					nv = e.tripAdjust(s, phi, nv)
+				}
 				if !had || !Equal(old, nv) {
 					s.vals[v] = nv
 					stable = false
@@ -1015,6 +1020,36 @@ func (e *Engine) fieldVal(k fieldKey, t types.Type, tainted bool) AV {
 	// never stored in analysed code: zero value, or set by code outside the analysed set
 	r := e.top(t)
 	return r
+}
+
+// storedDirect: fields that some analysed function assigns with a plain store through a field
+// address (x.f = v), whose value the round loop will therefore publish.
+func (e *Engine) storedDirect() map[fieldKey]bool {
+	if e.storedMemo != nil {
+		return e.storedMemo
+	}
+	e.storedMemo = map[fieldKey]bool{}
+	for _, fn := range e.order {
+		for _, b := range fn.Blocks {
+			for _, ins := range b.Instrs {
+				st, ok := ins.(*ssa.Store)
+				if !ok || !isIntType(st.Val.Type()) {
+					continue
+				}
+				fa, ok := st.Addr.(*ssa.FieldAddr)
+				if !ok {
+					continue
+				}
+				if al, ok := fa.X.(*ssa.Alloc); ok && e.localStruct(al) {
+					continue
+				}
+				if k, ok := fieldKeyOfAddr(st.Addr); ok {
+					e.storedMemo[k] = true
+				}
+			}
+		}
+	}
+	return e.storedMemo
 }
 
 // elemOf: value of an element loaded from container value c (array value).
@@ -1437,6 +1472,25 @@ func (e *Engine) localFieldAt(s *fstate, al *ssa.Alloc, f int, b *ssa.BasicBlock
 // int array/slice field contribute to the same (container) field key.
 func (e *Engine) storeContribution(s *fstate, st *ssa.Store) AV {
 	base := e.at(s, st.Val, st.Block(), 0)
+	// x.f = phi(A, x.f) (if v <= 0 { v = x.f }; x.f = v): the edge that carries the field's own value adds
+	// nothing to a field-based summary; without this the summary feeds itself and is widened to the type
+	if phi, ok := st.Val.(*ssa.Phi); ok {
+		if k, ok := fieldKeyOfAddr(st.Addr); ok && len(phi.Edges) == len(phi.Block().Preds) {
+			j, self := Bottom(), false
+			for i, ed := range phi.Edges {
+				if ld, ok := ed.(*ssa.UnOp); ok && ld.Op == token.MUL {
+					if lk, ok := fieldKeyOfAddr(ld.X); ok && lk == k {
+						self = true
+						continue
+					}
+				}
+				j = Join(j, e.atEdge(s, ed, phi.Block().Preds[i], phi.Block()))
+			}
+			if self && !j.IsBottom() {
+				base = j
+			}
+		}
+	}
 	fn := s.fn
 	if !hasFailConvention(fn) || base.IsBottom() {
 		return base
@@ -1639,6 +1693,33 @@ func (e *Engine) callResult(s *fstate, c *ssa.Call, b *ssa.BasicBlock, idx int) 
 			break
 		}
 		known = true
+		// bit-length helpers (for v > 0 { v >>= k; n++ }; return n) are evaluated with the actual
+		// argument: the result is bounded by the bit length of what this caller passes, not of the
+		// join over all callers
+		if h := e.bitLenSummary(callee); h.ok && idx <= 0 && h.param < len(cc.Args) && !cc.IsInvoke() {
+			arg := e.at(s, cc.Args[h.param], b, 2)
+			if !arg.IsBottom() {
+				bitlen := h.typeBits
+				if hi := satSub(arg.Hi(), h.sub); arg.Hi() != posInf && hi < (int64(1)<<uint(minI(h.typeBits, 62))) {
+					bitlen = 0
+					for x := hi; x > 0; x >>= 1 {
+						bitlen++
+					}
+				}
+				trips := (bitlen + h.shift - 1) / h.shift
+				hiRes := maxI(h.constHi, satAdd(h.init, satMul(h.inc, trips)))
+				res := Range(minI(h.constLo, h.init), hiRes)
+				res.SanLo = true
+				if arg.Taint {
+					res.Taint = true
+					// the count is a dangerous exponent only when the halved value is itself an unchecked
+					// exponential or an untouched wide stream scalar; a merely imprecise argument is not
+					res.Trip = tripDangerous(arg)
+				}
+				r = Join(r, res)
+				continue
+			}
+		}
 		// small pure helpers (min/max/DivCeil/clamp...) are evaluated with the actual arguments
 		if iv, ok := e.inline(s, c, callee, b, idx); ok {
 			r = Join(r, iv)
@@ -2747,4 +2828,332 @@ func (e *Engine) ownFieldPostcondition(fn *ssa.Function, key string) (AV, bool) 
 	}
 	r.Taint, r.Raw = true, true
 	return r, true
+}
+
+// tripAdjust: a header phi that is a pure iteration counter (init; counter += c on every back edge)
+// and is not itself read by the loop's exit test takes its final value from the trip count. When the
+// exit test reads a stream-controlled value the counter is stream-controlled too (implicit flow):
+// it is marked tainted / Trip. When the loop halves a non-negative value until it is zero
+// (for w > 0 { w >>= k; counter++ }) the trip count is at most bitlen(max w)/k, which bounds the
+// counter whatever widening did to it.
+func (e *Engine) tripAdjust(s *fstate, phi *ssa.Phi, nv AV) AV {
+	h := phi.Block()
+	if nv.IsBottom() || len(phi.Edges) != len(h.Preds) {
+		return nv
+	}
+	var inc int64
+	init := Bottom()
+	back := 0
+	for i, ed := range phi.Edges {
+		pred := h.Preds[i]
+		if !h.Dominates(pred) {
+			init = Join(init, e.atEdge(s, ed, pred, h))
+			continue
+		}
+		back++
+		bo, ok := e.stripWiden(ed).(*ssa.BinOp)
+		if !ok || bo.Op != token.ADD {
+			return nv
+		}
+		var k *ssa.Const
+		if bo.X == ssa.Value(phi) {
+			k, _ = bo.Y.(*ssa.Const)
+		} else if bo.Y == ssa.Value(phi) {
+			k, _ = bo.X.(*ssa.Const)
+		}
+		if k == nil || k.Value == nil || k.Value.Kind() != constant.Int {
+			return nv
+		}
+		c, ok := constant.Int64Val(k.Value)
+		if !ok || c <= 0 || (inc != 0 && inc != c) {
+			return nv
+		}
+		inc = c
+	}
+	if back == 0 || inc == 0 || init.IsBottom() || len(h.Instrs) == 0 {
+		return nv
+	}
+	ifi, ok := h.Instrs[len(h.Instrs)-1].(*ssa.If)
+	if !ok {
+		return nv
+	}
+	cond, ok := ifi.Cond.(*ssa.BinOp)
+	if !ok {
+		return nv
+	}
+	// the counter must not be what the exit test reads (those loops are refined by the test itself)
+	for _, o := range []ssa.Value{cond.X, cond.Y} {
+		if e.stripWiden(o) == ssa.Value(phi) {
+			return nv
+		}
+	}
+	tainted := e.at(s, cond.X, h, 1).Taint || e.at(s, cond.Y, h, 1).Taint
+	// halving loop: the tested value is a header phi w with w >>= k on every back edge, compared with 0 / 1
+	var w *ssa.Phi
+	if p, ok := e.stripWiden(cond.X).(*ssa.Phi); ok && p.Block() == h {
+		if kc, ok := cond.Y.(*ssa.Const); ok && kc.Value != nil && kc.Value.Kind() == constant.Int {
+			if kv, ok := constant.Int64Val(kc.Value); ok {
+				if (cond.Op == token.GTR && kv == 0) || (cond.Op == token.NEQ && kv == 0) || (cond.Op == token.GEQ && kv == 1) {
+					w = p
+				}
+			}
+		}
+	}
+	if w == nil || len(w.Edges) != len(h.Preds) || init.Hi() == posInf {
+		return nv
+	}
+	shift := int64(0)
+	winit := Bottom()
+	for i, ed := range w.Edges {
+		pred := h.Preds[i]
+		if !h.Dominates(pred) {
+			winit = Join(winit, e.atEdge(s, ed, pred, h))
+			continue
+		}
+		bo, ok := e.stripWiden(ed).(*ssa.BinOp)
+		if !ok || bo.Op != token.SHR || e.stripWiden(bo.X) != ssa.Value(w) {
+			return nv
+		}
+		kc, ok := bo.Y.(*ssa.Const)
+		if !ok || kc.Value == nil {
+			return nv
+		}
+		kv, ok := constant.Int64Val(constant.ToInt(kc.Value))
+		if !ok || kv < 1 || (shift != 0 && shift != kv) {
+			return nv
+		}
+		shift = kv
+	}
+	if shift == 0 || winit.IsBottom() {
+		return nv
+	}
+	if tainted && winit.Taint {
+		nv.Taint = true
+		if tripDangerous(winit) {
+			nv.Trip = true
+		}
+	}
+	bitlen := int64(63)
+	if _, _, size, signed, ok := e.typeRange(w.Type()); ok {
+		bitlen = int64(size)
+		if signed {
+			bitlen--
+		}
+	}
+	if hi := winit.Hi(); hi != posInf && hi >= 0 {
+		bl := int64(0)
+		for x := uint64(hi); x > 0; x >>= 1 {
+			bl++
+		}
+		if bl < bitlen {
+			bitlen = bl
+		}
+	}
+	trips := (bitlen + shift - 1) / shift
+	bound := satAdd(init.Hi(), satMul(inc, trips))
+	if nv.Hi() > bound {
+		t, tr := nv.Taint, nv.Trip
+		nv = nv.Meet(negInf, bound)
+		nv.Taint, nv.Trip = t, tr
+	}
+	return nv
+}
+
+// bitLenInfo: the callee is a bit-length helper — one halving loop over a value derived from
+// parameter `param` (p or p - sub), a pure counter starting at init and stepping by inc, and every
+// return yields a constant or that counter.
+type bitLenInfo struct {
+	ok                    bool
+	param                 int
+	sub, shift, inc, init int64
+	constLo, constHi      int64
+	typeBits              int64
+}
+
+func (e *Engine) bitLenSummary(fn *ssa.Function) bitLenInfo {
+	if e.bitLenMemo == nil {
+		e.bitLenMemo = map[*ssa.Function]bitLenInfo{}
+	}
+	if h, ok := e.bitLenMemo[fn]; ok {
+		return h
+	}
+	h := e.computeBitLen(fn)
+	e.bitLenMemo[fn] = h
+	return h
+}
+
+func constInt(v ssa.Value) (int64, bool) {
+	k, ok := v.(*ssa.Const)
+	if !ok || k.Value == nil {
+		return 0, false
+	}
+	iv := constant.ToInt(k.Value)
+	if iv.Kind() != constant.Int {
+		return 0, false
+	}
+	return constant.Int64Val(iv)
+}
+
+func (e *Engine) computeBitLen(fn *ssa.Function) bitLenInfo {
+	var none bitLenInfo
+	if fn == nil || fn.Blocks == nil || fn.Signature.Results().Len() != 1 || !isIntType(fn.Signature.Results().At(0).Type()) || len(fn.Blocks) > 12 {
+		return none
+	}
+	// exactly one loop header
+	var h *ssa.BasicBlock
+	for _, b := range fn.Blocks {
+		for _, p := range b.Preds {
+			if b.Dominates(p) {
+				if h != nil && h != b {
+					return none
+				}
+				h = b
+			}
+		}
+	}
+	if h == nil || len(h.Instrs) == 0 {
+		return none
+	}
+	ifi, ok := h.Instrs[len(h.Instrs)-1].(*ssa.If)
+	if !ok {
+		return none
+	}
+	cond, ok := ifi.Cond.(*ssa.BinOp)
+	if !ok {
+		return none
+	}
+	w, ok := e.stripWiden(cond.X).(*ssa.Phi)
+	if !ok || w.Block() != h {
+		return none
+	}
+	kv, ok := constInt(cond.Y)
+	if !ok || !((cond.Op == token.GTR && kv == 0) || (cond.Op == token.NEQ && kv == 0) || (cond.Op == token.GEQ && kv == 1)) {
+		return none
+	}
+	out := bitLenInfo{param: -1}
+	for i, ed := range w.Edges {
+		pred := h.Preds[i]
+		if h.Dominates(pred) {
+			bo, ok := e.stripWiden(ed).(*ssa.BinOp)
+			if !ok || bo.Op != token.SHR || e.stripWiden(bo.X) != ssa.Value(w) {
+				return none
+			}
+			k, ok := constInt(bo.Y)
+			if !ok || k < 1 || (out.shift != 0 && out.shift != k) {
+				return none
+			}
+			out.shift = k
+			continue
+		}
+		v := e.stripWiden(ed)
+		sub := int64(0)
+		if bo, ok := v.(*ssa.BinOp); ok && bo.Op == token.SUB {
+			k, ok := constInt(bo.Y)
+			if !ok || k < 0 {
+				return none
+			}
+			sub, v = k, e.stripWiden(bo.X)
+		}
+		pi := -1
+		for j, p := range fn.Params {
+			if ssa.Value(p) == v {
+				pi = j
+			}
+		}
+		if pi < 0 || (out.param >= 0 && (out.param != pi || out.sub != sub)) {
+			return none
+		}
+		out.param, out.sub = pi, sub
+	}
+	if out.param < 0 || out.shift == 0 {
+		return none
+	}
+	// the counter
+	var cnt *ssa.Phi
+	for _, ins := range h.Instrs {
+		p, ok := ins.(*ssa.Phi)
+		if !ok || p == w {
+			continue
+		}
+		good := true
+		var init, inc int64
+		haveInit := false
+		for i, ed := range p.Edges {
+			pred := h.Preds[i]
+			if h.Dominates(pred) {
+				bo, ok := e.stripWiden(ed).(*ssa.BinOp)
+				if !ok || bo.Op != token.ADD || bo.X != ssa.Value(p) {
+					good = false
+					break
+				}
+				k, ok := constInt(bo.Y)
+				if !ok || k <= 0 || (inc != 0 && inc != k) {
+					good = false
+					break
+				}
+				inc = k
+			} else {
+				k, ok := constInt(ed)
+				if !ok || (haveInit && k != init) {
+					good = false
+					break
+				}
+				init, haveInit = k, true
+			}
+		}
+		if good && inc > 0 && haveInit {
+			if cnt != nil {
+				return none // two counters: not the shape
+			}
+			cnt = p
+			out.init, out.inc = init, inc
+		}
+	}
+	if cnt == nil {
+		return none
+	}
+	// every return: a constant or the counter
+	out.constLo, out.constHi = out.init, out.init
+	nret := 0
+	for _, b := range fn.Blocks {
+		if len(b.Instrs) == 0 {
+			continue
+		}
+		ret, ok := b.Instrs[len(b.Instrs)-1].(*ssa.Return)
+		if !ok {
+			continue
+		}
+		nret++
+		v := e.stripWiden(ret.Results[0])
+		if v == ssa.Value(cnt) {
+			continue
+		}
+		k, ok := constInt(v)
+		if !ok {
+			return none
+		}
+		out.constLo, out.constHi = minI(out.constLo, k), maxI(out.constHi, k)
+	}
+	if nret == 0 {
+		return none
+	}
+	out.typeBits = 63
+	if _, _, size, signed, ok := e.typeRange(w.Type()); ok {
+		out.typeBits = int64(size)
+		if signed {
+			out.typeBits--
+		}
+	}
+	out.ok = true
+	return out
+}
+
+// tripDangerous: the value a halving loop runs over is an unchecked exponential (1<<n with a
+// stream-controlled n) or a wide stream scalar exactly as it arrived: its bit length is then a
+// stream-chosen number up to the word size.
+func tripDangerous(a AV) bool {
+	if !a.Taint {
+		return false
+	}
+	return a.Blowup || ((a.Exact || (a.Raw && !a.SanHi)) && a.Hi() >= int64(1)<<31)
 }
